@@ -354,8 +354,7 @@ class Gen:
             sc.vars[name] = 'c'
             return "const %s = %s" % (name, e)
         if k == 28 and 'defer' in self.f and in_func:
-            self.st("defer")
-            return "defer print(%s)" % self.int_expr(sc, 2)
+            return self.defer_stmt(sc)
         if k == 29:
             self.st("expr-stmt")
             return self.int_expr(sc, 1)
@@ -408,6 +407,26 @@ class Gen:
         self.st("for in")
         return "for %s in %s %s" % (x, src, self.block(inner, True, in_func, depth))
 
+    def defer_stmt(self, sc):
+        """a deferred call: builtin, bound method, compiled function (named or literal); arguments are evaluated now"""
+        r = self.r
+        c = r.below(5)
+        self.tk += 1
+        if c == 0:
+            self.st("defer builtin")
+            return "defer print(%s)" % self.int_expr(sc, 2)
+        if c == 1:
+            self.st("defer compiled")
+            return "defer t(%d, %s)" % (self.tk, self.int_expr(sc, 2))
+        if c == 2:
+            self.st("defer method")
+            return "defer log.append(%d)" % (1000 + self.tk)
+        ints = sc.assignable('i')
+        self.st("defer literal")
+        if c == 3 or not ints:
+            return "defer func() { log.append(%d); print(%s) }()" % (2000 + self.tk, self.int_expr(sc, 2))
+        return "defer func(d) { log.append(d); %s = %s + d }(%s)" % (r.choice(ints), r.choice(ints), self.int_expr(sc, 2))
+
     def func_decl(self, sc, depth):
         r = self.r
         name = self.fresh("f")
@@ -435,6 +454,10 @@ class Gen:
         inner.vars[name] = 'x'   # not callable inside (avoid unbounded recursion)
         body = self.block(inner, False, True, depth, n=1 + r.below(3))
         ret = "return %s" % self.int_expr(inner, 2)
+        if 'defer' in self.f and r.chance(1, 2):
+            # several pending deferred calls of different kinds in one activation
+            ds = "; ".join(self.defer_stmt(inner) for _ in range(2 + r.below(2)))
+            body = "{ " + ds + "; " + body[1:]
         body = body[:-1] + "; " + ret + " }"
         sc.vars[name] = 'f%d' % ar
         if named:
